@@ -33,6 +33,9 @@ func mirrorSFlowDispatcher(ch chan SFUDPMsg) {
 		ch4 = make(chan SFUDPMsg, 1000)
 		ch6 = make(chan SFUDPMsg, 1000)
 		msg SFUDPMsg
+
+		// which of the two channels a mirror worker reads
+		has4, has6 bool
 	)
 
 	if opts.SFlowMirrorAddr == "" {
@@ -44,8 +47,10 @@ func mirrorSFlowDispatcher(ch chan SFUDPMsg) {
 
 		if dst.To4() != nil {
 			go mirrorSFlow(dst, opts.SFlowMirrorPort, ch4)
+			has4 = true
 		} else {
 			go mirrorSFlow(dst, opts.SFlowMirrorPort, ch6)
+			has6 = true
 		}
 	}
 
@@ -54,10 +59,15 @@ func mirrorSFlowDispatcher(ch chan SFUDPMsg) {
 
 	for {
 		msg = <-ch
-		if msg.raddr.IP.To4() != nil {
+		switch v4 := msg.raddr.IP.To4() != nil; {
+		case v4 && has4:
 			ch4 <- msg
-		} else {
+		case !v4 && has6:
 			ch6 <- msg
+		default:
+			// no worker serves this address family: queueing
+			// the datagram would block the dispatcher for good
+			sFlowBuffer.Put(msg.body[:opts.SFlowUDPSize])
 		}
 	}
 }
@@ -115,8 +125,10 @@ func mirrorSFlow(dst net.IP, port int, ch chan SFUDPMsg) error {
 
 		sFlowBuffer.Put(msg.body[:opts.SFlowUDPSize])
 
+		// a datagram the path can not carry (e.g. longer than the MTU)
+		// is lost; the worker goes on with the next one
 		if err = conn.Send(packet[0 : ipHLen+8+pLen]); err != nil {
-			return err
+			logger.Println(err)
 		}
 	}
 }
